@@ -232,3 +232,42 @@ func TLA(module string, nfas []*NFA, a *Alphabet, pairFilter [][2]int) string {
 	sb.WriteString("\n>>\n====\n")
 	return sb.String()
 }
+
+// Variants returns strings obtained from w by replacing characters with other members of their
+// alphabet class (class membership is what both automata see, so every variant is accepted by
+// exactly the same notations as w).  At most max variants, chosen by the pseudo random source.
+func (a *Alphabet) Variants(w string, max int, intn func(int) int) []string {
+	rs := []rune(w)
+	classHi := func(r rune) (lo, hi rune) {
+		lo, hi = 0, 0x10FFFF
+		for i, b := range a.Reps {
+			if b <= r {
+				lo = b
+				if i+1 < len(a.Reps) {
+					hi = a.Reps[i+1] - 1
+				} else {
+					hi = 0x10FFFF
+				}
+			}
+		}
+		return
+	}
+	seen := map[string]bool{w: true}
+	var out []string
+	for try := 0; try < max*4 && len(out) < max; try++ {
+		v := make([]rune, len(rs))
+		copy(v, rs)
+		for i, r := range rs {
+			lo, hi := classHi(r)
+			if hi > lo && hi-lo < 64 && intn(2) == 0 {
+				v[i] = lo + rune(intn(int(hi-lo)+1))
+			}
+		}
+		s := string(v)
+		if !seen[s] {
+			seen[s] = true
+			out = append(out, s)
+		}
+	}
+	return out
+}
